@@ -33,6 +33,9 @@ structure Inj where
   varargs), and are related to nothing — a closure allocated earlier on the left than on the right, waiting for
   its partner (`SRel.matchClosureRight` releases the pin) -/
   pinF : List (Nat × FnBody × List (String × Nat)) := []
+  /-- pinned RIGHT closures, symmetrically (a closure the right allocates earlier than the left, or a helper
+  closure that exists on the right only) -/
+  pinFR : List (Nat × FnBody × List (String × Nat)) := []
 
 structure Inj.le (β β' : Inj) : Prop where
   c : ∀ a b, β.c a b → β'.c a b
@@ -43,11 +46,12 @@ structure Inj.le (β β' : Inj) : Prop where
   freshT : ∀ a b, β'.t a b → β.t a b ∨ (β.tL ≤ a ∧ β.tR ≤ b)
   freshF : ∀ a b, β'.f a b → β.f a b ∨ (β.fL ≤ a ∧ β.fR ≤ b)
   pins : ∀ p ∈ β.pinF, p ∈ β'.pinF
+  pinsR : ∀ p ∈ β.pinFR, p ∈ β'.pinFR
 
 theorem Inj.le_refl (β : Inj) : β.le β :=
   ⟨fun _ _ h => h, fun _ _ h => h, fun _ _ h => h,
     ⟨Nat.le_refl _, Nat.le_refl _, Nat.le_refl _, Nat.le_refl _, Nat.le_refl _, Nat.le_refl _⟩,
-    fun _ _ h => .inl h, fun _ _ h => .inl h, fun _ _ h => .inl h, fun _ h => h⟩
+    fun _ _ h => .inl h, fun _ _ h => .inl h, fun _ _ h => .inl h, fun _ h => h, fun _ h => h⟩
 theorem Inj.le_trans {a b c : Inj} (h1 : a.le b) (h2 : b.le c) : a.le c :=
   ⟨fun _ _ h => h2.c _ _ (h1.c _ _ h), fun _ _ h => h2.t _ _ (h1.t _ _ h), fun _ _ h => h2.f _ _ (h1.f _ _ h),
     ⟨Nat.le_trans h1.front.1 h2.front.1, Nat.le_trans h1.front.2.1 h2.front.2.1,
@@ -65,7 +69,7 @@ theorem Inj.le_trans {a b c : Inj} (h1 : a.le b) (h2 : b.le c) : a.le c :=
       rcases h2.freshF x y h with h | h
       · exact h1.freshF x y h
       · exact .inr ⟨Nat.le_trans h1.front.2.2.2.2.1 h.1, Nat.le_trans h1.front.2.2.2.2.2 h.2⟩,
-    fun p hp => h2.pins p (h1.pins p hp)⟩
+    fun p hp => h2.pins p (h1.pins p hp), fun p hp => h2.pinsR p (h1.pinsR p hp)⟩
 
 /-- a closure on the left that is below the frontier and unrelated: no extension ever relates it -/
 theorem Inj.le.protectedFL {β β' : Inj} (h : β.le β') {a : Nat} (hlt : a < β.fL) (hu : ∀ b, ¬ β.f a b) :
@@ -277,6 +281,7 @@ structure SRel (Q : QRel) (β : Inj) (σ σ' : State N) : Prop where
   front : Front β σ σ'
   /-- pinned left closures hold their content and are related to nothing -/
   pin : ∀ p ∈ β.pinF, σ.closures[p.1]? = some ⟨p.2.1, p.2.2, []⟩ ∧ ∀ b, ¬ β.f p.1 b
+  pinR : ∀ p ∈ β.pinFR, σ'.closures[p.1]? = some ⟨p.2.1, p.2.2, []⟩ ∧ ∀ a, ¬ β.f a p.1
 
 abbrev ARel (α : Type) := Inj → α → α → Prop
 def AEq {α : Type} : ARel α := fun _ a b => a = b
